@@ -134,7 +134,8 @@ def run_case(case):
     sched = case["sched"]
     with gen.Project() as proj:
         ts = case["dag"]["targets"]
-        variant = [{"name": t["name"], "ins_expr": repr(t["ins"]), "outs_expr": repr(t["outs"]), "spec": t["spec"], "route": "target"} for t in ts]
+        sr = random.Random(case["final_seed"])
+        variant = [{"name": t["name"], "ins_expr": repr(gen.respell_list(sr, t["ins"], proj.root)), "outs_expr": repr(gen.respell_list(sr, t["outs"], proj.root, 0.1)), "spec": t["spec"], "route": "target"} for t in ts]
         proj.write_workflow(gen.render_workflow(variant))
         proj.write_config({"backend": sched})
         for f, tk in case["ticks"].items():
@@ -153,6 +154,7 @@ def run_case(case):
                     tracked = json.load(f)
             except FileNotFoundError:
                 tracked = {}
+            tracked = scenario.check_tracked(res, sim, sched, tracked, set(deps), {"round": ri, "sched": sched})
             bview = scenario.backend_view(sim, tracked, sched)
             mtime = scenario.disk_mtimes(scenario.all_paths(mts))
             sel = scenario.select(set(deps), rnd["patterns"])
